@@ -276,3 +276,7 @@ def run(repo: Repo, rep: Report, tier: str) -> None:
     for cname in sorted(allowed11):
         rep.check(cname in own_out, "C03-R11", f"in-place retyping of {cname} nodes", "the class is placed with its own output signal" if cname in own_out else
                   f"{cname} has no combinator with an output signal of its own: `m.read() | \"signal-B\"` renames the read, nothing emits signal-B and every consumer reads 0", pf11.loc(retype11[0]))
+
+    # ---------------- R12 --------------------------------------------------------------
+    _borrow3b(repo, rep, "C15", "C15-R3", "C03-R12", "a cell declared in a function or loop body is one cell per expansion: a re-declaration gets a fresh id, which needs the builder's index "
+              "to contain the earlier declaration", select=lambda o: "indexes every node" in o.construct or "memory id" in o.construct, floor=2)
